@@ -444,7 +444,7 @@ class Ep:
             "idx": s.idx,
             "raised": self.raised,
             "errors": self.errors,
-            "acked": sorted([y.idx, sim.addr_id(y.addr)] for y in self.listener.acked),
+            "acked": sorted(self.syn_json(y) for y in self.listener.acked),
             "hosts": sorted(sim.host_id(h) for h in s.hosts),
             "inbox": len(self.listener.socket.queue),
             "netlen": len(sim.net.net),
@@ -452,6 +452,12 @@ class Ep:
         if extra:
             d.update(extra)
         return d
+
+    def syn_json(self, y):
+        """an element of Listener.acked (a Syn on the unchanged code)"""
+        if hasattr(y, "idx") and hasattr(y, "addr"):
+            return [y.idx, self.sim.addr_id(y.addr)]
+        return [y if isinstance(y, int) else -1, -1]
 
     def begin(self):
         self.sim.cur = self.a
